@@ -1,4 +1,5 @@
 import Arimaa.Lemmas.Move
+import Arimaa.Lemmas.GenAgreeCapture
 
 /-!
 `trapped_piece_bits` / `remove_trapped_pieces` pointwise and their abstraction to `Spec.capture`;
